@@ -40,6 +40,12 @@ CORPUS = [
 ]
 
 
+# refcount stress: six threads copy and drop handles of one object 150 times each (lost updates of a
+# non-atomic counter show up as a wrong use_count, a premature delete or a missing delete)
+CORPUS.append("T 5 3 0 | %s | %s" % (EXPRS[6], " ;; ".join(["c0 d0 " * 150 + "h0"] * 6)))
+CORPUS.append("T 6 3 1 | %s | %s" % (EXPRS[8], " ;; ".join(["c0 c0 d0 d0 " * 60] * 5)))
+
+
 def gen_case(rng, tier):
     ne = rng.randint(1, 3)
     es = rng.sample(EXPRS, ne)
